@@ -1,6 +1,6 @@
 (* Wire commands of the allowlist model (C11). *)
 From Coq Require Import List String Bool Arith.
-From Verif Require Import Base Dispatch DispatchHooks Allowlist Hooks.
+From Verif Require Import Base Dispatch DispatchHooks Allowlist AddSplit Hooks.
 Import ListNotations.
 Open Scope string_scope.
 
@@ -78,7 +78,20 @@ Definition as_mode (s : sexp) : option copy_mode :=
   | _ => None
   end.
 
+(* (split_adds s1 s2 ...): the (module, name) pair each addition string stands for, or ERR (no dot) *)
+Definition show_split (s : string) : string :=
+  match rsplit_dot s with
+  | Some (m, n) => wire_of_string m ++ "," ++ wire_of_string n
+  | None => "ERR"
+  end.
+
 Definition handle_allow (cmd : string) (args : list sexp) : option string :=
+  if cmd =? "split_adds" then
+    match opt_map as_wire_string args with
+    | Some l => Some (join "|" (map show_split l))
+    | None => None
+    end
+  else
   if cmd =? "allow" then
     match args with
     | [m; v; SList ops] =>
